@@ -1,7 +1,8 @@
 #!/bin/bash
+# bin/seedconfirm.sh <worktree> <prop> <n> [<k>]: (kept as seeded/<prop>-m<k>, default k = n)
 # bin/seedconfirm.sh <worktree> <prop> <n>: confirm a sub-agent's mutant in its scratch worktree and keep it under /verif/seeded
 # (suite passes with the patch; demo fails with it and passes without)
-WT=$1; P=$2; N=$3
+WT=$1; P=$2; N=$3; K=${4:-$3}
 M=$WT/SEED/mutant$N
 cd $WT || exit 2
 git checkout -q -- . ; git stash list | head -1
@@ -14,7 +15,7 @@ git checkout -q -- . ; git clean -fdq -e SEED -e target >/dev/null 2>&1
 git checkout -q -- . ; git clean -fdq -e SEED -e target >/dev/null 2>&1
 echo "$P mutant$N: suite=[$SUITE] demo_with_patch_rc=$WITH demo_without_rc=$WITHOUT"
 if [ "$WITH" != "0" ] && [ "$WITHOUT" = "0" ] && echo "$SUITE" | grep -q "397 passed 0 failed"; then
-  D=/verif/seeded/$P-m$N
+  D=/verif/seeded/$P-m$K
   mkdir -p $D && cp $M/patch.diff $D/ && rm -rf $D/demo && cp -r $M/demo $D/demo && cp $M/notes.md $D/notes.md
   python3 - <<PY
 import json
